@@ -13,7 +13,7 @@ CONSTANTS
   AllowDecor = TRUE
   OnExcChoices = {TRUE}
   PreForceChoices = {FALSE}
-  XfDecChoices = {TRUE, FALSE}
+  XfDecChoices = {FALSE}
   StepOps = {"addCleanup", "upcall"}
   AllowMulti = TRUE
   Variant = "asRequired"
